@@ -75,3 +75,58 @@ ben('ben-handler-reorder', ['C05', 'C18', 'C04'], ('task.py', "                i
                                      "                if self._data:\n                    failed = self._data\n                    self._data = None\n                    failed.on_run_error()\n"))
 ben('ben-handler-bare-raise', ['C05', 'C18'], ('task.py', "                    self._data = None\n                raise error\n", "                    self._data = None\n                raise\n"))
 ben('ben-save-extra-log', ['C05'], ('task.py', "        if self._data.is_persisting:\n            self._data.save()", "        if self._data.is_persisting:\n            self.logger.debug('saving')\n            self._data.save()"))
+
+# ---------------------------------------------------------------------------------------------- C18
+mut('c18-prefix-handler-leak', 'C18', 'R18.1',
+    ('task.py', "                try:\n                    self.logger.info(f'{self} - run started with params: {self.params.repr}')\n                    run_result = self.run(*self._get_run_arguments())\n                    self.logger.info(f'{self} - run ended')\n                finally:\n                    if data_log_handler is not None:\n                        self.logger.removeHandler(data_log_handler)\n                        data_log_handler.close()\n",
+     "                self.logger.info(f'{self} - run started with params: {self.params.repr}')\n                run_result = self.run(*self._get_run_arguments())\n                self.logger.info(f'{self} - run ended')\n                self.logger.removeHandler(data_log_handler)\n"))
+mut('c18-remove-only-on-error', 'C18', 'R18.1',
+    ('task.py', "                finally:\n                    if data_log_handler is not None:\n                        self.logger.removeHandler(data_log_handler)\n                        data_log_handler.close()\n",
+     "                except Exception:\n                    if data_log_handler is not None:\n                        self.logger.removeHandler(data_log_handler)\n                        data_log_handler.close()\n                    raise\n"))
+mut('c18-append-mode', 'C18', 'R18.3', ('data.py', "return logging.FileHandler(self.log_path, mode='w')", "return logging.FileHandler(self.log_path)"))
+mut('c18-handler-on-wrong-path', 'C18', 'R18.3', ('data.py', "return logging.FileHandler(self.log_path, mode='w')", "return logging.FileHandler(self._base_dir / 'task.log', mode='w')"))
+mut('c18-init-after-run', 'C18', 'R18.2', ('task.py', "            try:\n                self._init_run_info()\n                if self._data and self._data.is_logging:", "            try:\n                if self._data and self._data.is_logging:"),
+    ('task.py', "                self._process_run_result(run_result)\n            except Exception as error:", "                self._init_run_info()\n                self._process_run_result(run_result)\n            except Exception as error:"))
+mut('c18-finish-in-finally', 'C18', 'R18.2', ('task.py', "                raise error\n            self._finish_run_info()\n", "                raise error\n            finally:\n                self._finish_run_info()\n"))
+mut('c18-finish-before-save', 'C18', 'R18.2', ('task.py', "                self._process_run_result(run_result)\n            except Exception as error:", "                self._finish_run_info()\n                self._process_run_result(run_result)\n            except Exception as error:"),
+    ('task.py', "                raise error\n            self._finish_run_info()\n", "                raise error\n"))
+mut('c18-params-filtered', 'C18', 'R18.4', ("task.py", "'parameters': {p.name: p.value_repr() for p in self.parameters.values()},", "'parameters': {p.name: p.value_repr() for p in self.parameters.values() if not p.ignore_persistence},"))
+mut('c18-no-input-keys', 'C18', 'R18.4', ("task.py", "            if isinstance(self._config, TaskParameterConfig):\n                self._run_info['input_tasks'] = self._config.input_tasks\n", ""))
+mut('c18-log-list-shared', 'C18', 'R18.4', ("task.py", "            'log': [],\n        }", "            'log': getattr(self, '_run_info', {}).get('log', []),\n        }"))
+
+ben('ben-c18-handler-context', ['C18', 'C05'],
+    ('task.py', "                finally:\n                    if data_log_handler is not None:\n                        self.logger.removeHandler(data_log_handler)\n                        data_log_handler.close()\n",
+     "                finally:\n                    if data_log_handler:\n                        self.logger.removeHandler(data_log_handler)\n                        data_log_handler.close()\n"))
+ben('ben-c18-mode-positional', ['C18'], ('data.py', "return logging.FileHandler(self.log_path, mode='w')", "handler = logging.FileHandler(self.log_path, 'w')\n        return handler"))
+
+# ---------------------------------------------------------------------------------------------- C15
+_C15_GET_NEW = "        with lock:\n            if filepath.exists():\n                try:\n                    return self.load_value(filepath, key)\n                except CacheException as error:\n                    raise error\n                except Exception as error:\n                    logger.warning(f'Cannot load cached value, {key=}, {filepath=}.')\n                    logger.exception(error)\n        return NO_VALUE\n"
+_C15_GET_OLD = "        with lock:\n            filepath_exists = filepath.exists()\n        if filepath_exists:\n            try:\n                return self.load_value(filepath, key)\n            except CacheException as error:\n                raise error\n            except Exception as error:\n                logger.warning(f'Cannot load cached value, {key=}, {filepath=}.')\n                logger.exception(error)\n        return NO_VALUE\n"
+mut('c15-prefix-get-window', 'C15', 'R15.2', ('cache.py', _C15_GET_NEW, _C15_GET_OLD))
+mut('c15-save-outside-lock', 'C15', 'R15.1', ('cache.py', "            value = computer()\n            self.save_value(filepath, key, value)\n        return value", "            value = computer()\n        self.save_value(filepath, key, value)\n        return value"))
+mut('c15-get-other-lockfile', 'C15', 'R15.3', ('cache.py', "    def get(self, key):\n        filepath = self.filepath(key)\n        lock = FileLock(str(filepath) + '.lock', mode=0o664)", "    def get(self, key):\n        filepath = self.filepath(key)\n        lock = FileLock(str(filepath) + '.rlock', mode=0o664)"))
+mut('c15-lock-per-directory-vs-file', 'C15', 'R15.3', ('cache.py', "    def get_or_compute(self, key, computer, force=False):\n        \"\"\"\"\"\"\n        filepath = self.filepath(key)\n        lock = FileLock(str(filepath) + '.lock', mode=0o664)",
+                                                        "    def get_or_compute(self, key, computer, force=False):\n        \"\"\"\"\"\"\n        filepath = self.filepath(key)\n        lock = FileLock(str(filepath.parent) + '.lock', mode=0o664)"))
+
+ben('ben-c15-rename-lock', ['C15', 'C14'], ('cache.py', "    def get(self, key):\n        filepath = self.filepath(key)\n        lock = FileLock(str(filepath) + '.lock', mode=0o664)\n        with lock:", "    def get(self, key):\n        filepath = self.filepath(key)\n        key_lock = FileLock(str(filepath) + '.lock', mode=0o664)\n        with key_lock:"))
+ben('ben-c15-inline-lock', ['C15', 'C14'], ('cache.py', "    def get(self, key):\n        filepath = self.filepath(key)\n        lock = FileLock(str(filepath) + '.lock', mode=0o664)\n        with lock:", "    def get(self, key):\n        filepath = self.filepath(key)\n        with FileLock(f'{filepath}.lock', mode=0o664):"))
+
+# ---------------------------------------------------------------------------------------------- C14
+mut('c14-save-before-compute', 'C14', 'R14.1', ('cache.py', "            value = computer()\n            self.save_value(filepath, key, value)\n        return value", "            self.save_value(filepath, key, None)\n            value = computer()\n            self.save_value(filepath, key, value)\n        return value"))
+mut('c14-save-in-finally', 'C14', 'R14.1', ('cache.py', "            value = computer()\n            self.save_value(filepath, key, value)\n        return value", "            value = None\n            try:\n                value = computer()\n            finally:\n                self.save_value(filepath, key, value)\n        return value"))
+mut('c14-cacheexception-swallowed', 'C14', 'R14.2', ('cache.py', "            if filepath.exists() and not force:\n                try:\n                    return self.load_value(filepath, key)\n                except CacheException as error:\n                    raise error\n                except Exception as error:",
+                                                     "            if filepath.exists() and not force:\n                try:\n                    return self.load_value(filepath, key)\n                except Exception as error:"))
+mut('c14-generic-returns-none', 'C14', 'R14.2', ('cache.py', "            if filepath.exists():\n                try:\n                    return self.load_value(filepath, key)\n                except CacheException as error:\n                    raise error\n                except Exception as error:\n                    logger.warning(f'Cannot load cached value, {key=}, {filepath=}.')\n                    logger.exception(error)",
+                                                 "            if filepath.exists():\n                try:\n                    return self.load_value(filepath, key)\n                except CacheException as error:\n                    raise error\n                except Exception as error:\n                    logger.warning(f'Cannot load cached value, {key=}, {filepath=}.')\n                    logger.exception(error)\n                    return None"))
+mut('c14-generic-before-specific', 'C14', 'R14.2', ('cache.py', "            if filepath.exists() and not force:\n                try:\n                    return self.load_value(filepath, key)\n                except CacheException as error:\n                    raise error\n                except Exception as error:\n                    logger.warning(f'Cannot load cached value, {key=}, {filepath=}.')\n                    logger.exception(error)\n",
+                                                    "            if filepath.exists() and not force:\n                try:\n                    return self.load_value(filepath, key)\n                except Exception as error:\n                    logger.warning(f'Cannot load cached value, {key=}, {filepath=}.')\n                    logger.exception(error)\n                except CacheException as error:\n                    raise error\n"))
+mut('c14-no-key-check', 'C14', 'R14.3', ('cache.py', "            if key != loaded['key']:\n                raise CacheException(\n                    f'The expected cache key {key} does not match to the retrieved one {loaded[\"key\"]}'\n                )\n", ""))
+mut('c14-key-check-prefix', 'C14', 'R14.3', ('cache.py', "            if key != loaded['key']:", "            if not loaded['key'].startswith(key[:8]):"))
+mut('c14-digest-truncated', 'C14', 'R14.4', ('cache.py', "        return directory / f'{key_hash[5:]}.{self.extension}'", "        return directory / f'{key_hash[5:16]}.{self.extension}'"))
+mut('c14-subcache-same-dir', 'C14', 'R14.4', ('cache.py', "        return self.__class__(self.directory / directory)", "        return self.__class__(self.directory)"))
+mut('c14-force-ignored', 'C14', 'R14.5', ('cache.py', "            if filepath.exists() and not force:", "            if filepath.exists():"))
+mut('c14-mem-subcache-shared', 'C14', 'R14.4', ('cache.py', "        if name not in self._subcaches[get_ident()]:\n            self._subcaches[get_ident()][name] = InMemoryCache()\n        return self._subcaches[get_ident()][name]", "        return self"))
+
+ben('ben-c14-value-rename', ['C14', 'C15'], ('cache.py', "            value = computer()\n            self.save_value(filepath, key, value)\n        return value", "            computed = computer()\n            self.save_value(filepath, key, computed)\n        return computed"))
+ben('ben-c14-keycheck-eq', ['C14'], ('cache.py', "            if key != loaded['key']:\n                raise CacheException(\n                    f'The expected cache key {key} does not match to the retrieved one {loaded[\"key\"]}'\n                )\n",
+                                      "            if not (loaded['key'] == key):\n                raise CacheException(\n                    f'The expected cache key {key} does not match to the retrieved one {loaded[\"key\"]}'\n                )\n"))
